@@ -174,6 +174,9 @@ def est_model(rng, full=True):
     return isn.EstimationModel(bias_sd=1e-2, noise=1e-3)
 
 
+_AS_FORM_CALLS = [0]          # as_form calls since the start of the current argument build (reset by the registry wrapper)
+
+
 def _totuple(x):
     return tuple(_totuple(v) for v in x) if isinstance(x, list) else x
 
@@ -183,6 +186,13 @@ def as_form(arr, form, columns=None):
     or '+int' (same values, integer dtype / Python ints): an integer-typed argument is one more accepted form of an
     integer-valued one."""
     integer = False
+    if form.endswith('+ival1') or form.endswith('+int1'):
+        # mixed dtypes: only the FIRST array argument of the call is whole-numbered / integer-typed, the others stay fractional floats
+        first = _AS_FORM_CALLS[0] == 0
+        _AS_FORM_CALLS[0] += 1
+        kind, form = form[form.index('+'):], form[:form.index('+')]
+        if first:
+            form = form + kind[:-1]
     if form.endswith('+ival'):
         arr, form = np.rint(np.asarray(arr, float)), form[:-5]
     elif form.endswith('+int'):
@@ -208,7 +218,10 @@ def registry():
 
     def reg(name, forms=('array',), kind=None):
         def deco(f):
-            R[name] = dict(build=f, forms=forms, kind=kind)
+            def build(rng, form, _f=f):
+                _AS_FORM_CALLS[0] = 0
+                return _f(rng, form)
+            R[name] = dict(build=build, forms=forms, kind=kind)
             return f
         return deco
 
@@ -728,7 +741,7 @@ def execute(ctx, name, sub, form):
 
 
 def entry_strategy():
-    return st.fixed_dictionaries({'entry': st.sampled_from(list(range(len(names())))), 'sub': st.integers(0, 2 ** 31 - 1), 'form': st.integers(0, 5)})
+    return st.fixed_dictionaries({'entry': st.sampled_from(list(range(len(names())))), 'sub': st.integers(0, 2 ** 31 - 1), 'form': st.integers(0, 11)})
 
 
 INT_ENTRIES = ('earth.principal_radii', 'earth.gravity', 'earth.gravity_n', 'earth.gravitation_ecef', 'earth.curvature_matrix',
@@ -744,13 +757,13 @@ def entry_forms(name):
     if 'list' in f:
         f += ('tuple',)
         if name in INT_ENTRIES:
-            f += ('array+int', 'list+int')
+            f += ('array+int', 'list+int', 'array+int1')
     return f
 
 
 def base_form(name, form):
     b = get_registry()[name]['forms'][0]
-    return b + '+ival' if form.endswith('+int') else b
+    return b + '+ival1' if form.endswith('+int1') else b + '+ival' if form.endswith('+int') else b
 
 
 def _scribble(x, done):
